@@ -50,7 +50,8 @@ theorem child_add_spec (w : World) (Us : List (List Con)) (hw : TInvS R RE E Us 
       (∀ i, i ≠ j → w'.fes.getD i {} = w.fes.getD i {}) ∧
       (w'.fes.getD j {}).constraints = (w.fes.getD j {}).constraints ++ added ∧ (∀ c ∈ added, c ∈ cs) ∧
       (∀ v, v ∈ (w'.fes.getD j {}).variables ↔ v ∈ (w.fes.getD j {}).variables ∨ ∃ c ∈ added, v ∈ c.vars) ∧
-      (w'.fes.getD j {}) = (publicAdd (childOps E) cs true (stOfI w j)).2.fe := by
+      (w'.fes.getD j {}) = (publicAdd (childOps E) cs true (stOfI w j)).2.fe ∧ w'.reuse = w.reuse ∧
+      (∀ c ∈ cs, c ∈ added ∨ (c.id ∈ (w.fes.getD j {}).hashes ∨ c.id ∈ (w.fes.getD j {}).woAnnot) ∨ ∃ c' ∈ added, c'.id = c.id) := by
   have h0 := hw.each j hj
   have hother : ∀ i, i ≠ j → (runOn w j (publicAdd (childOps E) cs)).2.fes.getD i {} = w.fes.getD i {} :=
     fun i hi => runOn_getD_ne w j _ i hi
@@ -64,7 +65,7 @@ theorem child_add_spec (w : World) (Us : List (List Con)) (hw : TInvS R RE E Us 
     rw [hrun] at hother hself hlen ⊢
     obtain ⟨h1, hq⟩ := h0.mark.unmark
     have := tinvS_step hw hj hq (U' := Us.getD j [] ++ []) (by simpa using h1)
-    refine ⟨[], _, rfl, this, hlen, hother, ?_, by simp, ?_, hself⟩
+    refine ⟨[], _, rfl, this, hlen, hother, ?_, by simp, ?_, hself, rfl, by simp⟩
     · rw [hself]; simp [stOfI]
     · intro v; rw [hself]; simp [stOfI]
   · have hrun0 : publicAdd (childOps E) cs true (stOfI w j) = (cL4 E (chStage E 3)).add cs true (stOfI w j) := by
@@ -74,7 +75,7 @@ theorem child_add_spec (w : World) (Us : List (List Con)) (hw : TInvS R RE E Us 
     have hsi := si_of_added H.reg h0.mark hcs (fun _ => rfl) hrel hmc1 hsc1
     rw [hrun0, hrun] at hother hself hlen ⊢
     obtain ⟨h1, hq⟩ := hsi.unmark
-    refine ⟨new, _, rfl, tinvS_step hw hj hq h1, hlen, hother, ?_, hrel.sub, ?_, hself⟩
+    refine ⟨new, _, rfl, tinvS_step hw hj hq h1, hlen, hother, ?_, hrel.sub, ?_, hself, rfl, hrel.cover⟩
     · rw [hself, hrel.cons]; rfl
     · intro v; rw [hself]; exact hrel.vars v
 
@@ -89,9 +90,11 @@ theorem child_branch_spec (w : World) (Us : List (List Con)) (hw : TInvS R RE E 
       w'.fes.getD j {} = { w.fes.getD j {} with finalized := true } ∧
       (w'.fes.getD w.fes.length {}).constraints = (w.fes.getD j {}).constraints ∧
       (w'.fes.getD w.fes.length {}).variables = (w.fes.getD j {}).variables ∧
-      (w'.fes.getD w.fes.length {}).models = (w.fes.getD j {}).models := by
+      (w'.fes.getD w.fes.length {}).models = (w.fes.getD j {}).models ∧
+      (w'.fes.getD w.fes.length {}).hashes = (w.fes.getD j {}).hashes ∧
+      (w'.fes.getD w.fes.length {}).woAnnot = (w.fes.getD j {}).woAnnot ∧ w'.reuse = w.reuse := by
   obtain ⟨h1, h2⟩ := ch_step_branch (E := E) w Us hw j hj
-  obtain ⟨c, hrun, hcons, _, _, _, _, _, _, hvar, hmc, _⟩ := branchC_spec E (stOfI w j)
+  obtain ⟨c, hrun, hcons, _, _, _, hhash, hwo, _, hvar, hmc, _⟩ := branchC_spec E (stOfI w j)
   have hstep : step E .SolverCompositeChild w j .branch =
       (match runOn w j (branchC E) with
        | (.ok c, w') => (.newSolver w'.fes.length, { w' with fes := w'.fes ++ [c] })
@@ -100,7 +103,7 @@ theorem child_branch_spec (w : World) (Us : List (List Con)) (hw : TInvS R RE E 
   simp only at h1 h2 ⊢
   have hlen1 : (wOfI w j { stOfI w j with fe := { (stOfI w j).fe with finalized := true } }).fes.length = w.fes.length := by
     simp [wOfI]
-  refine ⟨_, by rw [hlen1], h2, by simp [wOfI], ?_, ?_, ?_, ?_, ?_⟩
+  refine ⟨_, by rw [hlen1], h2, by simp [wOfI], ?_, ?_, ?_, ?_, ?_, ?_, ?_, rfl⟩
   · intro i hi hij
     simp only [wOfI]
     rw [getD_append_left' _ _ _ _ (by simpa using hi), getD_set_ne _ _ _ _ _ (Ne.symm hij)]
@@ -117,6 +120,12 @@ theorem child_branch_spec (w : World) (Us : List (List Con)) (hw : TInvS R RE E 
     simp only [wOfI] at this ⊢
     rw [← this, getD_append_last]
     exact (mcFields_eq hmc).1
+  · have : (wOfI w j { stOfI w j with fe := { (stOfI w j).fe with finalized := true } }).fes.length = w.fes.length := hlen1
+    simp only [wOfI] at this ⊢
+    rw [← this, getD_append_last]; exact hhash
+  · have : (wOfI w j { stOfI w j with fe := { (stOfI w j).fe with finalized := true } }).fes.length = w.fes.length := hlen1
+    simp only [wOfI] at this ⊢
+    rw [← this, getD_append_last]; exact hwo
 
 /-- a blank child (`template.blank_copy()`, or the start of `combine` / `split`) joins the world -/
 theorem child_blank_spec (w : World) (Us : List (List Con)) (hw : TInvS R RE E Us w) (hre : w.reuse = false) (track : Bool) :
